@@ -13,6 +13,7 @@ import contextlib
 import doctest
 import io
 import json
+import os
 import sys
 import traceback
 import warnings
@@ -440,8 +441,75 @@ def exception_compat(ctx):
     ctx.count('exception_lines_x_flags', total)
 
 
+MODULE_TEXTS = {
+    # the module's own __future__ imports apply to its examples (the standard module takes the compiler flags from the module's globals)
+    'future_annotations': ("from __future__ import annotations\n\n\ndef f():\n    \"\"\"\n    >>> def g(x: Undefined1) -> Undefined2:\n    ...     return x\n"
+                           "    >>> sorted(g.__annotations__.items())\n    [('return', 'Undefined2'), ('x', 'Undefined1')]\n    >>> g(3)\n    3\n    \"\"\"\n\n\n"
+                           "class K:\n    \"\"\"\n    >>> class C:\n    ...     a: Missing = 1\n    >>> C.__annotations__\n    {'a': 'Missing'}\n    \"\"\"\n"),
+    'future_annotations_and_more': ("\"\"\"Module docstring.\n\n>>> v: NotDefinedAnywhere = 5\n>>> v\n5\n\"\"\"\nfrom __future__ import annotations, generator_stop\n\n\n"
+                                    "def h(a: int) -> int:\n    \"\"\"\n    >>> h.__annotations__\n    {'a': 'int', 'return': 'int'}\n    >>> def inner(q: Later): pass\n    >>> inner.__annotations__\n    {'q': 'Later'}\n    \"\"\"\n    return a\n"),
+    'no_future': ("def p():\n    \"\"\"\n    >>> def g(x: int) -> int:\n    ...     return x\n    >>> g.__annotations__['x'] is int\n    True\n    \"\"\"\n\n\n"
+                  "def q():\n    \"\"\"\n    >>> def bad(x: Undefined3): pass\n    Traceback (most recent call last):\n    NameError: name 'Undefined3' is not defined\n    \"\"\"\n"),
+}
+
+
+def module_compat(ctx):
+    """whole modules: what doctest's finder and runner pass for a module file, xdoctest collects from that file and passes"""
+    import importlib.util
+    import shutil
+    import tempfile
+    from xdoctest import core
+    tmp = tempfile.mkdtemp(prefix='xdverif_c20_')
+    try:
+        for name, text in sorted(MODULE_TEXTS.items()):
+            modname = 'xdverif_c20_%s' % name
+            path = os.path.join(tmp, modname + '.py')
+            open(path, 'w').write(text)
+            spec = importlib.util.spec_from_file_location(modname, path)
+            mod = importlib.util.module_from_spec(spec)
+            sys.modules[modname] = mod
+            try:
+                spec.loader.exec_module(mod)
+                std = {}
+                for test in doctest.DocTestFinder(exclude_empty=True).find(mod, modname):
+                    runner = doctest.DocTestRunner(verbose=False, optionflags=0)
+                    with contextlib.redirect_stdout(io.StringIO()):
+                        r = runner.run(test, out=lambda s: None, clear_globs=True)
+                    short = test.name[len(modname) + 1:] or '__doc__'
+                    std[short] = r.failed == 0 and r.attempted > 0
+                xd = {}
+                with warnings.catch_warnings():
+                    warnings.simplefilter('ignore')
+                    for ex in core.parse_doctestables(path, analysis='static'):
+                        ex.mode = 'native'
+                        so = sys.stdout
+                        try:
+                            summ = ex.run(on_error='return', verbose=0)
+                            xd[ex.callname] = 'passed' if summ['passed'] else ('failed:' + type(summ['exc_info'][1]).__name__ if summ['failed'] else 'skipped')
+                        except BaseException as e:      # noqa
+                            xd[ex.callname] = 'escaped:' + type(e).__name__
+                        finally:
+                            sys.stdout = so
+            finally:
+                sys.modules.pop(modname, None)
+            for k, ok in sorted(std.items()):
+                ctx.evaluations += 1
+                if ok:
+                    ctx.nontrivial += 1
+                    if xd.get(k) != 'passed':
+                        ctx.violation('incompatible', {'what': 'the doctest of %s in module %r passes under the standard doctest module (finder + runner on the imported module) '
+                                                               'but xdoctest reports %s' % (k, name, xd.get(k, 'not collected')), 'module_source': text, 'module_kind': name,
+                                                       'theorem_or_correspondence': 'C20: standard doctest module as oracle, on a module file'}, True)
+            ctx.count('module_compat:%s:std_passing' % name, sum(1 for v in std.values() if v))
+        if not any(v for v in std.values()):
+            raise RuntimeError('module_compat: the standard module passes nothing (harness defect)')
+    finally:
+        shutil.rmtree(tmp, ignore_errors=True)
+
+
 def run(ctx):
     ellipsis_compat(ctx)
+    module_compat(ctx)
     pipeline_compat(ctx)
     exception_compat(ctx)
     rng = ctx.rng('std')
